@@ -56,6 +56,10 @@ def enumerate_cases():
     for req, item_vis in itertools.product(["", "pub", "pub(crate)", "pub(super)", "pub(in crate::CID)", "pub(self)", "pub(in super::super)"],
                                            ["", "pub", "pub(crate)"]):
         out.append(dict(kind="fn", req=req, item_vis=item_vis))
+    # the other dependency kinds of fn inputs (concrete deps generate the trait through a nested invocation)
+    for deps, req, item_vis in itertools.product(["concrete", "impl", "no_deps", "concrete_val"], ["", "pub", "pub(crate)", "pub(super)", "pub(in crate::CID)"],
+                                                 ["", "pub", "pub(crate)", "pub(super)"]):
+        out.append(dict(kind="fn", req=req, item_vis=item_vis, deps=deps))
     # module inputs: relative restricted paths (pub(super), pub(in super::..)) mean different things on the trait inside the
     # module and on the re-export beside it and are a documented limitation (tests/it/simple.rs); absolute ones are well-defined
     for req, item_vis in itertools.product(["", "pub", "pub(crate)", "pub(in crate::CID)"], ["", "pub", "pub(crate)"]):
@@ -77,7 +81,12 @@ def build(cid, spec):
     macro = spec.get("macro", "entrait")
     args = (req + " Tr").strip() + ((", " + spec["opts"]) if spec.get("opts") else "")
     if kind == "fn":
-        inv = "#[::entrait::%s(%s)] /*@inv*/\n%s fn f<D>(deps: &D) -> i32 { 1 }" % (macro, args, spec["item_vis"])
+        dk = spec.get("deps", "generic")
+        sig = {"generic": "f<D>(deps: &D)", "concrete": "f(deps: &Cfg)", "concrete_val": "f(deps: Cfg)", "impl": "f(deps: &impl ::core::marker::Sized)", "no_deps": "f()"}[dk]
+        pre = "#[derive(Clone, Copy)] pub struct Cfg;\n" if dk.startswith("concrete") else ""
+        if dk == "no_deps":
+            args += ", no_deps"
+        inv = "%s#[::entrait::%s(%s)] /*@inv*/\n%s fn %s -> i32 { 1 }" % (pre, macro, args, spec["item_vis"], sig)
     elif kind == "mod":
         inv = "#[::entrait::%s(%s)] /*@inv*/\n%s mod m { pub fn f<D>(deps: &D) -> i32 { 1 } }" % (macro, args, spec["item_vis"])
     else:
